@@ -83,6 +83,7 @@ class World:
         self.check_every = 1
         self.poke = False
         self.big_done = False
+        self.comb_done = False
         from . import findings
         self.open_guards = findings.open_ids()
         self.evals = 0
